@@ -1,6 +1,8 @@
 (* Where JavaScript's splitLines and Python's str.splitlines(True) agree, and where they do not. *)
 From Coq Require Import List NArith Bool Lia Wf_nat.
-From NB Require Import Base.Json Base.PyStr Ts.TsSplit.
+From NB Require Import Base.Json.
+From NB Require Import Base.PyStr.
+From NB Require Import Ts.TsSplit.
 Import ListNotations.
 Local Open Scope N_scope.
 
